@@ -347,10 +347,8 @@ def c04_diag(case, out, res, which):
     tests = [bool(dg.corr_test), bool(dg.aatest.test_ok), bool(dg.bbtest.test_ok), bool(dg.dwtest.test_ok)]
     if rd['tests'] != tests:
       fails.append('design %d: test outcomes %s, recomputed %s' % (k, rd['tests'], tests))
-    s = tbrmmscore.TBRMMScore(dg).score
-    if which == 'exhaustive' and br:
-      s = s._replace(inv_required_impact=fdiv(1.0, fdiv(dg.required_impact, br[1])))
-    want = [float(v) for v in s]
+    from .search import documented_score
+    want = [float(v) for v in documented_score(dg, br[1] if (which == 'exhaustive' and br) else None)]
     if not all(same(a, b) for a, b in zip(d['score'], want)):
       fails.append('design %d: score %s, recomputed %s' % (k, d['score'], want))
     sd = rd.get('score_diag')
